@@ -1706,7 +1706,11 @@ pub fn connect_at_the_edge_of_the_arena_script(r: &mut Rng, _index: u64, _tier: 
     let cfg = CaseCfg { rx: 1024, tx, keepalive: 0, client_id, will: Some(will), auth, ..CaseCfg::default() };
     let mut s = vec![connect_with(SpMode::Force(false), AckMode::Hold, vec![])];
     // one or two unacknowledged packets leave `est + d` bytes
-    let leave = (est as i64 + r.below(21) as i64 - 10).max(0) as usize;
+    // (or just about what the CONNECT needs up to the end of the will's property block: the
+    // encoder runs out of room in the middle of the packet)
+    let upto_will_props = 5 + 10 + 14 + 2 + 4 + 1 + wlen;
+    let target = if r.chance(1, 2) { est } else { upto_will_props };
+    let leave = (target as i64 + r.below(17) as i64 - 8).max(0) as usize;
     if r.chance(1, 2) {
         s.push(pubq(2, "edge/first", 1, 5));
     }
